@@ -416,7 +416,9 @@ def evaluate(label, f, call, result, o):
     kind, path, argv, envp = call_for(call, ctx, real)
     pre, at, ret = o.get("pre", []), o.get("at", []), o.get("ret", [])
     child = o.get("child", {})
-    if child.get("signal"):
+    if child.get("timedout"):
+        out["C01"].append(("no-return", "the call did not return: the process was still inside it when the harness watchdog killed it"))
+    elif child.get("signal"):
         out["C01"].append(("crash", "the calling process died with signal %d during the call" % child["signal"]))
     if not pre:
         if not child.get("signal"):
@@ -586,7 +588,8 @@ def evaluate_hist(label, steps, expects, o, tail=0):
     if o is None or "ctx" not in o:
         return [(0, "C01", "no-observation", "no observation")]
     if o.get("child", {}).get("signal"):
-        res.append((len(o["steps"]), "C01", "crash", "the calling process died with signal %d" % o["child"]["signal"]))
+        res.append((len(o["steps"]), "C01", "no-return" if o["child"].get("timedout") else "crash",
+                    "a call did not return (killed by the harness watchdog)" if o["child"].get("timedout") else "the calling process died with signal %d" % o["child"]["signal"]))
     base_snap = None
     for k, (f, call, result) in enumerate(steps):
         so = dict(o["steps"].get(k, {}))
